@@ -2,14 +2,27 @@ module verifharness
 
 go 1.26.5
 
-require github.com/MixinNetwork/mixin v0.0.0
+require (
+	filippo.io/edwards25519 v1.2.0
+	github.com/MixinNetwork/mixin v0.0.0
+	github.com/dgraph-io/ristretto/v2 v2.4.2
+	github.com/zeebo/blake3 v0.2.4
+)
 
 require (
-	filippo.io/edwards25519 v1.2.0 // indirect
+	github.com/cespare/xxhash/v2 v2.3.0 // indirect
+	github.com/dgraph-io/badger/v4 v4.9.4 // indirect
+	github.com/dustin/go-humanize v1.0.1 // indirect
+	github.com/google/flatbuffers v25.12.19+incompatible // indirect
+	github.com/klauspost/compress v1.19.0 // indirect
 	github.com/klauspost/cpuid/v2 v2.4.0 // indirect
 	github.com/pelletier/go-toml v1.9.5 // indirect
+	github.com/quic-go/quic-go v0.60.0 // indirect
 	github.com/shopspring/decimal v1.4.0 // indirect
-	github.com/zeebo/blake3 v0.2.4 // indirect
+	golang.org/x/crypto v0.54.0 // indirect
+	golang.org/x/net v0.57.0 // indirect
+	golang.org/x/sys v0.47.0 // indirect
+	google.golang.org/protobuf v1.36.11 // indirect
 )
 
 replace github.com/MixinNetwork/mixin => /repo
